@@ -1133,6 +1133,10 @@ func (broker *Broker) startTrack(wg *sync.WaitGroup) {
 				// If the Q is still not empty, don't block when looking for a
 				// new payload to receive
 				wait = time.After(time.Second)
+			} else if in == nil {
+				// The last files were just handed over and nothing more can
+				// come in: waiting below would be waiting forever
+				return
 			}
 		}
 		payload = nil
